@@ -559,6 +559,45 @@ def block_adaptive(ctx, tm, psi):
 
 
 @timed
+def block_adaptive_prefactor(ctx, tm, psi):
+    """the adaptive step controller works with RELATIVE errors: how the norm of the state is split between the scalar
+    prefactor (`coeff`) and the tensors must not matter (constant-mean-field scheme: the step size always matters)"""
+    run, rng = ctx.run, ctx.rng
+    H = tm.dense_h()
+    nh = opnorm(H)
+    mpo = tm.mpo()
+    big = int(max(L.exact_bond_dims(tm)))
+    T = float(rng.uniform(1.5, 2.0)) / nh
+    rtol = float(10 ** rng.uniform(-5, -4))
+    spec = dict(kind="cmf", solver="RK45", adaptive=True, adaptive_rtol=rtol, guess_dt=float(T * rng.choice([0.45, 3.0])))
+    nm = name_of(spec)
+    c = complex(rng.choice([2000.0, 40.0, 1.0 / 40, 5e-4]))
+    try:
+        with time_limit(60.0):
+            plain = evolve_n(psi, mpo, T, 1, spec, big)
+            scaled_in = psi.copy()
+            scaled_in.coeff = complex(psi.coeff) * c
+            scaled = evolve_n(scaled_in, mpo, T, 1, spec, big)
+    except CallTimeout:
+        run.violation(f"{nm}:adaptive:prefactor:no-result-within-60s", replay_base(tm, dense_state(psi), spec, T=T, prefactor=str(c)))
+        return
+    except Exception as e:
+        run.violation(f"{nm}:adaptive:prefactor:exception:{exc_sig(e)}", replay_base(tm, dense_state(psi), spec, T=T, prefactor=str(c), error=repr(e)))
+        return
+    v0 = dense_state(psi)
+    nv = np.linalg.norm(v0)
+    ref = scipy.linalg.expm(-1j * T * H) @ v0
+    e_plain = float(np.linalg.norm(dense_state(plain) - ref))
+    e_scaled = float(np.linalg.norm(dense_state(scaled) / c - ref))
+    ctx.evald(("adaptive-prefactor", tm.label, nm, abs(c) > 1))
+    run.count(f"adaptive-prefactor:{'large' if abs(c) > 1 else 'small'}")
+    tol = 400 * rtol * nv
+    if e_plain <= tol and not e_scaled <= tol:
+        run.violation(f"{nm}:adaptive:result-depends-on-prefactor",
+                      replay_base(tm, v0, spec, T=T, prefactor=str(c), err_coeff_1=e_plain, err_with_prefactor=e_scaled, tol=tol))
+
+
+@timed
 def block_conserve(ctx, tm, qntot):
     """TDVP-PS conserves norm and energy to solver precision at ANY bond dimension; second-order
     self-convergence on the truncated manifold"""
@@ -950,6 +989,7 @@ def search(run, rng, quick):
                 block_order(ctx, tm, psi)
                 block_gauge(ctx, tm, psi)
                 block_adaptive(ctx, tm, psi)
+                block_adaptive_prefactor(ctx, tm, psi)
             else:
                 prod = product_state(ctx, tm, q)
                 block_order(ctx, tm, prod if prod is not None else psi)
